@@ -977,8 +977,61 @@ def model_step_cases(rng, n):
             body[33] ^= 0x20
         return ('@', L.data_reply(0, ord('r'), L.T_NULL, bytes(body)))
 
+    def honest_full(qt, lazy, autofrag, denc):
+        """the replies of a well-behaved server to client_handshake(raw_mode = 0), one per query, with random faults: a reply
+        lost (the client retries), refused, or altered.  '=' items carry the right DNS id and their own command letter, so a
+        reply that arrives for another step's query does not fit"""
+        def rp(ch, payload, t=None):
+            return ('=', L.data_reply(0, ord(ch), t or L.T_NULL, payload))
+        it = []
+
+        def maybe_lost(x, p=8):
+            r = rng.randrange(p * 3)
+            if r == 0:
+                return ['T', x]
+            if r == 1:
+                return [('=', L.reply(0, ord('q'), L.T_NULL, [], flags=0x8403)), x]
+            if r == 2:
+                return ['T', 'T', x]
+            return [x]
+        if qt == 0:
+            for _k in range(rng.choice([1, 1, 2, 4, 9])):
+                it += rng.choice([[rp('y', d)], ['T'], [rp('y', d[:20])]])
+        it += maybe_lost(rp('v', b'VACK' + bytes(rng.randrange(256) for _ in range(4)) + bytes([rng.randrange(16)])))
+        login = rng.choice([b'10.0.0.1-10.0.0.2-1130-27', b'10.0.0.1-10.0.0.2-1130-27', b'172.16.0.1-172.16.0.9-1200-28', b'LNAK', b'BADIP',
+                            b'10.0.0.1-10.0.0.2-70000-27', b'10.0.0.1-10.0.0.299-1130-27', b'garbage'])
+        it += maybe_lost(rp('l', login))
+        it += maybe_lost(rp('y', d if rng.randrange(4) else d[:30]))          # EDNS0 check
+        upok = rng.choice([7, 7, 7, 5, 2, 0, 1])      # how many of the upstream patterns come back intact
+        for j, k in enumerate([2, 3, 4, 5, 6, 0, 1]):
+            body = pats[k] if (j < upok or (j >= 5 and rng.randrange(2))) else pats[k][:-1] + b'!'
+            it += maybe_lost(rp('z', b'zabc' + body), 12)
+        it += maybe_lost(rp('s', rng.choice([b'Base128', b'Base64', b'Base64u', b'BADCODEC', b'BADLEN'])))
+        if denc == 32 and qt not in (10, 65399):
+            for _k in range(4):
+                it += maybe_lost(rp('y', d if rng.randrange(3) else d[:11]), 12)
+        it += maybe_lost(rp('o', rng.choice([b'Base64', b'Base128', b'Raw', b'BADCODEC'])))
+        if lazy:
+            it += maybe_lost(rp('o', rng.choice([b'Lazy', b'Lazy', b'BADCODEC', b'Immediate'])))
+        if autofrag:
+            limit = rng.choice([200, 512, 1200, 4000])
+            prop, rngw, mx = 768, 768, 0
+            while rngw > 0 and (rngw >= 8 or mx < 300):
+                x = probe_reply(prop, limit)
+                if x == 'T':
+                    it += ['T', 'T', 'T']
+                    ok = False
+                else:
+                    it.append(('=', x[1]))
+                    ok = True
+                    mx = prop
+                rngw >>= 1
+                prop = prop + rngw if ok else prop - rngw
+        it += maybe_lost(rp('n', bytes([4, 0])))
+        return it + ['T'] * 6
+
     for _ in range(n):
-        kind = rng.randrange(8)
+        kind = rng.randrange(10)
         qt = rng.choice([10, 65399, 16, 33, 15, 5, 1])
         kw = dict(qtype=qt, uid=rng.randrange(16), lazy=rng.randrange(2), downenc=32, seed=rng.randrange(1 << 31))
         if kind == 0:      # retry counters of the five-attempt steps
@@ -1026,6 +1079,16 @@ def model_step_cases(rng, n):
             for _k in range(21):
                 items.append(rng.choice([('@', L.data_reply(0, ord('y'), L.T_NULL, d)), 'T', 'T', nx(ord('y')), ('@', L.data_reply(0, ord('y'), L.T_NULL, d[:30]))]))
             out.append(L.hs_case('qtype_auto', items=items, **dict(kw, qtype=0)))
+        elif kind >= 8:    # the whole DNS-mode handshake answered by a well-behaved server, with faults
+            q2 = rng.choice([0, 10, 16, 5, 15, 33])
+            lz, af, de = rng.randrange(2), rng.randrange(2), rng.choice([32, 32, ord('T'), ord('S')])
+            out.append(L.hs_case('full', qtype=q2, uid=0, lazy=lz, downenc=de, seed=rng.randrange(1 << 31), arg=2 * af,
+                                 items=honest_full(q2, lz, af, de)))
+        elif kind == 7:    # login replies
+            good = rng.choice([b'10.0.0.1-10.0.0.2-1130-27', b'192.168.99.1-192.168.99.7-200-30', b'10.0.0.1-10.0.0.2-1501-27', b'LNAK', b'BADIP',
+                               b'10.0.0.1-10.0.0.2-1130-33', b'10.0.0.1-10.0.0.2-1130', b'1.2.3.4-5.6.7.8-1500-8\0trailing', b'a-b-1-2'])
+            items = [filler(ord('l')) if rng.randrange(3) else nx(ord('l')) for _ in range(rng.randrange(6))] + [('@', L.data_reply(0, ord('l'), L.T_NULL, good))] + ['T'] * 3
+            out.append(L.hs_case('login', items=items, **kw))
         else:              # fragment size search under a size limit / with corruption / with wrong acks
             limit = rng.choice([100, 200, 300, 512, 700, 1200, 1500, 4000, 2, 3, 50])
             prop, rngw, mx = 768, 768, 0
@@ -1216,7 +1279,13 @@ def stream_handshake(rep, ctx, findings):
         ncmp = 0
         per = {}
         for c, a, b in zip(mc, il, ml):
-            if b == 'SKIP' or a.startswith('BAIL') or a == '<NO-OUTPUT>':
+            if a.startswith('BAIL 999'):
+                # more than 400 time-outs inside one step: C06_handshake_step_bounded allows at most 141 queries for the whole handshake
+                findings.add('hang:handshake-step', 'the handshake step does not end: more than 400 select() time-outs after the script '
+                             '(every step sends a bounded number of queries whatever the replies are)',
+                             dict(kind='input', driver='hf', case=c, observed=a, expected=b, stream='handshake-step'))
+                continue
+            if b == 'SKIP' or a == '<NO-OUTPUT>':
                 continue
             ncmp += 1
             st = c.split()[1]
